@@ -5,7 +5,7 @@ Driver for C06.
 
 Fail case:
   <id> A <r|s> <path> <stText: n (<nat> <str>)…> <opts: n opt…> <accept: 0 | 1 str> <answers: n str…>
-       <preCT: 0 | 1 str> <abortFirst> <pos> <call> => R <status> <ctype> <bodies: n json…> <aborted> <entered: n nat…> | P
+       <preCT: 0 | 1 str> <abortFirst> <ctxDone> <pos> <call> => R <status> <ctype> <bodies: n json…> <aborted> <entered: n nat…> | P
 MarshalJSON case:
   <id> M <type> <title> <status> <detail> <instance> <ext: n (<str> json)…> => R json | E | P
 
@@ -100,6 +100,7 @@ structure ACase where
   answers : List Bytes
   preCT : Option Bytes
   abortFirst : Bool
+  ctxDone : Bool
   pos : Nat
   call : Call
 
@@ -116,9 +117,10 @@ def pACase (fuel : Nat) : P ACase := do
   let answers ← list str
   let pre ← opt str
   let ab ← bool
+  let cd ← bool
   let pos ← nat
   let call ← pCall fuel
-  pure { wire := w, path := path, stTab := tab, opts := opts, accept := accept, answers := answers, preCT := pre, abortFirst := ab,
+  pure { wire := w, path := path, stTab := tab, opts := opts, accept := accept, answers := answers, preCT := pre, abortFirst := ab, ctxDone := cd,
          pos := pos, call := call }
 
 def pResp (fuel : Nat) : P (Option Resp) := do
@@ -161,7 +163,7 @@ def canonResp (r : Resp) : Resp := { r with bodies := r.bodies.map Json.canon }
 def possible (c : ACase) : List Resp :=
   let env : Env := { path := c.path, stText := stTextOf c.stTab }
   let cfg := mkCfg c.opts
-  c.answers.map fun ans => canonResp (failH c.preCT c.abortFirst env cfg ans c.wire c.pos c.call)
+  c.answers.map fun ans => canonResp (failH c.preCT c.abortFirst c.ctxDone env cfg ans c.wire c.pos c.call)
 
 def stepA (id : String) (inp obs : List String) : String :=
   match runP (pACase inp.length) inp, runP (pResp obs.length) obs with
